@@ -1,5 +1,5 @@
 //@ assume: equality of the abstract Input / Output / TxKernel values stands for the real PartialEq (`contains` => `has`: true iff an equal element is in the list); a kernel's excess and an input's / output's commitment are uninterpreted functions of the element (two different kernels may share an excess); Transaction::new sorts (a permutation), `sort_unstable` likewise
-//@ assume: T6: the block computing `total_kernel_offset` (static_secp_instance, two iterator pipelines that drop zero offsets, secp blind_sum) => offset_difference(mk_tx.offset, kernel_offsets), ASSUMED to return the group difference sp_offset_diff(mk offset, the single collected offset) or an error -- the block itself (its two pipelines, their closures and the handling of a cancelling sum) is verified as a lifted function in C12/offset_sums; `vec![]` => Vec::new(); `let v: Vec<_> = t.inputs().into()` => inputs_of(&t); by-value `for x in vec` => slice iterator + copy; `X.contains(&y)` => `X.has(&y)`; `Inputs::from(inputs.as_slice())` => inputs_from
+//@ assume: T6: the block computing `total_kernel_offset` (static_secp_instance, two iterator pipelines that drop zero offsets, secp blind_sum) => offset_difference(&mk_tx, &tx), ASSUMED to return the group difference sp_offset_diff(mk offset, the known aggregate's offset) or an error -- the block itself (its two pipelines, their closures and the handling of a cancelling sum) is verified as a lifted function in C12/offset_sums; `vec![]` => Vec::new(); `let v: Vec<_> = t.inputs().into()` => inputs_of(&t); by-value `for x in vec` => slice iterator + copy; `X.contains(&y)` => `X.has(&y)`; `Inputs::from(inputs.as_slice())` => inputs_from
 //@ assume: decided here (C12, 'de-aggregating a known subset returns the remainder'), for ANY multi-kernel transaction and ANY list of known transactions: transaction::deaggregate(mk_tx, txs) aggregates txs with the real transaction::aggregate (C12/aggregate, included and re-verified) and returns a transaction whose inputs / outputs / kernels are EXACTLY the elements of mk_tx that do not occur (as whole elements, not merely by commitment or excess) among the aggregate's inputs / outputs / kernels, each once, and whose offset is mk_tx's offset minus the aggregate's. That this equals 'the remainder' presupposes the stated condition (no cross-spends between the known subset and the rest). Validity of the result is not decided.
 //@ assumed_items: 10
 //@ fns: transaction::deaggregate
@@ -38,9 +38,8 @@ impl<T> Has<T> for [T] {
 }
 pub uninterp spec fn sp_offset_diff(a: BlindingFactor, b: BlindingFactor) -> BlindingFactor;
 #[verifier::external_body]
-fn offset_difference(mk_offset: BlindingFactor, kernel_offsets: Vec<BlindingFactor>) -> (r: Result<BlindingFactor, Error>)
-    requires kernel_offsets@.len() == 1
-    ensures r matches Ok(d) ==> d == sp_offset_diff(mk_offset, kernel_offsets@[0]) { unimplemented!() }
+fn offset_difference(mk_tx: &Transaction, tx: &Transaction) -> (r: Result<BlindingFactor, Error>)
+    ensures r matches Ok(d) ==> d == sp_offset_diff(mk_tx.offset, tx.offset) { unimplemented!() }
 #[verifier::external_body]
 fn sort_perm<T>(v: &mut Vec<T>) ensures final(v)@.to_multiset() == old(v)@.to_multiset() { unimplemented!() }
 
@@ -154,14 +153,14 @@ proof fn lemma_nodup_count<T>(s: Seq<T>, x: T)
 //@   rewrite `let mut inputs: Vec<CommitWrapper> = vec![];` => `let mut inputs: Vec<CommitWrapper> = Vec::new();`
 //@   rewrite `let mut outputs: Vec<Output> = vec![];` => `let mut outputs: Vec<Output> = Vec::new();`
 //@   rewrite `let mut kernels: Vec<TxKernel> = vec![];` => `let mut kernels: Vec<TxKernel> = Vec::new();`
-//@   rewrite `let mut kernel_offsets = vec![];` => `let mut kernel_offsets: Vec<BlindingFactor> = Vec::new();`
+//@   rewrite `let mut kernel_offsets = vec![];` => `let mut kernel_offsets: Vec<BlindingFactor> = Vec::new();` x?
 //@   rewrite `let mk_inputs: Vec<_> = mk_tx.inputs().into();` => `let mk_inputs: Vec<CommitWrapper> = inputs_of(&mk_tx);`
 //@   rewrite `for mk_input in mk_inputs {` => `for mk_input_ref in it1: mk_inputs.iter() { let mk_input = *mk_input_ref;`
 //@   rewrite `let tx_inputs: Vec<_> = tx.inputs().into();` => `let tx_inputs: Vec<CommitWrapper> = inputs_of(&tx);`
 //@   rewrite `for mk_output in mk_tx.outputs() {` => `for mk_output in it2: mk_tx.outputs().iter() {`
 //@   rewrite `for mk_kernel in mk_tx.kernels() {` => `for mk_kernel in it3: mk_tx.kernels().iter() {`
 //@   rewrite `.contains(` => `.has(` x6
-//@   block `let total_kernel_offset = ` replaced_by `offset_difference(mk_tx.offset, kernel_offsets)?`
+//@   block `let total_kernel_offset = ` replaced_by `offset_difference(&mk_tx, &tx)?`
 //@   rewrite `inputs.sort_unstable();` => `sort_perm(&mut inputs);`
 //@   rewrite `outputs.sort_unstable();` => `sort_perm(&mut outputs);`
 //@   rewrite `kernels.sort_unstable();` => `sort_perm(&mut kernels);`
@@ -186,7 +185,7 @@ proof fn lemma_nodup_count<T>(s: Seq<T>, x: T)
 //@   after `for mk_kernel in it3: mk_tx.kernels().iter() {`:
 //@+    proof { let n = it3.index@ as int; assert(*mk_kernel == mk_tx.kerns@[n]);
 //@+            lemma_minus_step(kernels@, mk_tx.kerns@, n, tx.kerns@, !tx.kerns@.contains(*mk_kernel) && !kernels@.contains(*mk_kernel)); }
-//@   before `kernel_offsets.push(tx.offset);`:
+//@   before `// now compute the total kernel offset`:
 //@+    proof { assert(mk_tx.ins@.take(mk_tx.ins@.len() as int) =~= mk_tx.ins@); assert(mk_tx.outs@.take(mk_tx.outs@.len() as int) =~= mk_tx.outs@); assert(mk_tx.kerns@.take(mk_tx.kerns@.len() as int) =~= mk_tx.kerns@);
 //@+            assert(minus(inputs@, mk_tx.ins@, tx.ins@) && minus(outputs@, mk_tx.outs@, tx.outs@) && minus(kernels@, mk_tx.kerns@, tx.kerns@));
 //@+            lemma_minus_perm_all(inputs@, mk_tx.ins@, tx.ins@); lemma_minus_perm_all(outputs@, mk_tx.outs@, tx.outs@); lemma_minus_perm_all(kernels@, mk_tx.kerns@, tx.kerns@); }
